@@ -134,10 +134,12 @@ PROPS['C17'] = dict(
     level='proof',
     technique='Verus: every index, split and slice length in the extracted functions is a discharged obligation under the layout invariant wf(); Kani pointer checks on the real unsafe allocator',
     level_text='For the functions under contract, all shapes: no out-of-bounds index/split; every limb block addressed lies inside the buffer (lemma_limb_len). Allocator: Kani memory-safety checks (OOB, misaligned, dangling) on take_slice_aligned / take_slice_default with symbolic alignment.',
-    level_note='Only the listed functions; the unsafe accessor bodies (ZnxView::at/at_mut) are a trusted interface here; FFT/NTT kernels, AVX code and the core layer are not covered.',
+    level_note='Only the listed functions; the unsafe accessor bodies (ZnxView::at/at_mut) are checked by Kani for buffers of 64 bytes (all well-formed shapes); FFT/NTT kernels, AVX code and the core layer are not covered.',
     units=[V('znx'), V('vec_znx_arith'), V('vec_znx_ring'), V('vec_znx_normalize'),
            K('poulpy-cpu-ref', 'hal_defaults::scratch::verif_kani', ['c12_take_slice_aligned_contract', 'c12_take_slice_default_i64', 'c12_take_slice_default_i128'], cls='complete', timeout=600,
-             functions=['take_slice_aligned (unsafe)', 'take_slice_default (unsafe cast)'])],
+             functions=['take_slice_aligned (unsafe)', 'take_slice_default (unsafe cast)']),
+           K('poulpy-hal', 'layouts::vec_znx::verif_kani', ['c17_vec_znx_accessors_layout'], cls='complete', timeout=900,
+             functions=['ZnxView::at / at_ptr / raw, ZnxViewMut::at_mut on VecZnx (unsafe from_raw_parts): the I-LAYOUT interface the Verus units trust'])],
     trusted_base=VERUS_TRUST,
     assumptions=['VecZnx::from_data is unchecked in the real API: wf() of every operand is a precondition'],
     remainder='unsafe accessors of the layouts, DFT/NTT/VMP kernels, AVX loads/stores, deserialised objects used afterwards',
@@ -173,12 +175,16 @@ PROPS['C18'] = dict(
     units=[
         K('poulpy-hal', 'layouts::vec_znx::verif_kani', ['c18_vec_znx_read_header', 'c18_vec_znx_read_truncated'], cls='complete', timeout=1500,
           functions=['<VecZnx as ReaderFrom>::read_from']),
+        K('poulpy-hal', 'layouts::scalar_znx::verif_kani', ['c18_scalar_znx_read_header', 'c18_scalar_znx_read_truncated'], cls='complete', timeout=900,
+          functions=['<ScalarZnx as ReaderFrom>::read_from']),
+        K('poulpy-hal', 'layouts::mat_znx::verif_kani', ['c18_mat_znx_read_header'], cls='complete', timeout=1500,
+          functions=['<MatZnx as ReaderFrom>::read_from']),
         K('poulpy-hal', 'layouts::vec_znx::verif_kani', ['c18_vec_znx_round_trip__coeffs4'], cls='bounded', tier='thorough', timeout=2400,
           bound='n*cols*size <= 4 coefficients, contents symbolic', functions=['<VecZnx as WriterTo>::write_to']),
     ],
     trusted_base=[FMT_STUB, 'std::io::Cursor / byteorder as compiled by Kani'],
     assumptions=[],
-    remainder='ScalarZnx/MatZnx harnesses, wrapper types (GLWE, GGLWE, GGSW, keys, compressed forms), cross-backend byte format (syntactic: no backend type parameter in these layouts)',
+    remainder='wrapper types (GLWE, GGLWE, GGSW, keys, compressed forms), cross-backend byte format (syntactic: no backend type parameter in these layouts)',
 )
 
 PROPS['C20'] = dict(
@@ -214,8 +220,8 @@ PROPS['C14'] = dict(
     explanation=BOUNDED_EXPL,
     units=[K('poulpy-bin-fhe', 'blind_rotation::lut::verif_kani', ['c14_lut_clear__n4_ext1_f4', 'c14_lut_clear__n4_ext1_f2'], cls='bounded', timeout=1500,
              bound='N=4, ext=1, table length 4 / 2, base2k=4, k=3', functions=['LookupTableFactory::lookup_table_set', 'LookupTableFactory::lookup_table_rotate']),
-           K('poulpy-bin-fhe', 'blind_rotation::lut::verif_kani', ['c14_lut_clear__n4_ext2_f4'], cls='bounded', tier='thorough', timeout=2400,
-             bound='N=4, ext=2, table length 4')],
+           K('poulpy-bin-fhe', 'blind_rotation::lut::verif_kani', ['c14_lut_clear__n2_ext2_f2'], cls='bounded', tier='thorough', timeout=2400,
+             bound='N=2, ext=2, table length 2')],
     trusted_base=[FMT_STUB],
     assumptions=['Module::new_marker: these routines use only coefficient-domain operations'],
     remainder='blind rotation under an LWE ciphertext, mod_switch_2n, key distributions, limbs above the noise floor',
